@@ -54,11 +54,11 @@ def check(ctx: Ctx):
         ctx.check(v is not None and key_of(v) == key_of(var('evolventDensity')), 'R20.1', sp.short, sp.loc(),
                   'SolverParameters stores evolventDensity as given',
                   'SolverParameters does not store its evolventDensity argument', key=f'R20.1::{sp.short}::stores')
-    si = ctx.ix.func('Solver.__init__')
+    si, cons = evo.solver_evolvent_constructions(ctx)
     params = var(si.param_names[2])
     n = 0
-    for p in C.normal_paths(ctx.explorer(inline_ctor=False).explore(si)):
-        for ne in C.new_events(p, 'Evolvent'):
+    for p, ne in cons:
+        if True:
             n += 1
             bound = dict(zip(init.param_names[1:], ne.d['args']))
             bound.update(ne.d['kwargs'])
